@@ -1,28 +1,45 @@
 """C03 — each dataset-manipulation wrapper selects exactly the promised samples.
 
-One case = one class layout + one constructor call.  The real wrapper is built over a
+One case = one class layout + one constructor call (+ optionally a second constructor call `over` that is made on top
+of and next to the first on the same dataset).  The real wrapper is built over a
 dataset whose item x is the sample id; the selection [w.getitem_x(i) for i in range(len(w))]
 is compared with the Coq model (coq/C03/Model.v, evaluated with vm_compute, fed with the
 recorded generator outputs) and with the Coq spec (Spec.v / Check.v); an independent Python
 oracle states the promise of each wrapper directly on the real selection."""
 import collections
+import copy
 import math
 import random as pyrandom
 import signal
 
-from .common import C, Nat, Opt, Raw, coq
+from .common import C, Nat, Opt, Raw, Str, coq
 
 ID = "C03"
-COQ_FILES = ["C03/Model.v", "C03/ModelFloat.v", "C03/Spec.v", "C03/Check.v", "C03/Proofs.v", "C03/Property.v"]
-COQ_PRELUDE = ("From Coq Require Import ZArith List Bool Floats.\nImport ListNotations.\n"
+COQ_FILES = ["C03/Model.v", "C03/ModelFloat.v", "C03/Spec.v", "C03/Check.v", "C03/Proofs.v", "C03/Proofs2.v",
+             "C03/Property.v"]
+COQ_PRELUDE = ("From Coq Require Import String.\nFrom Coq Require Import ZArith List Bool Floats.\nImport ListNotations.\n"
                "From KD Require Import C03.Model C03.ModelFloat C03.Spec C03.Check.\nOpen Scope Z_scope.\n")
 COQ_CHECK = "check"
 COQ_CASE_TYPE = "case_t"
 SHARD = 200
 ALLOWED_AXIOMS = []
 TRUSTED = [
-    "hand-written model coq/C03/Model.v of the ten wrapper constructors and get_class_counts; tied to KD_REPO by "
-    "this run's correspondence evaluation",
+    "hand-written model coq/C03/Model.v of the ten wrapper constructors (ClassFilterWrapper by number and by name), "
+    "get_class_counts and the KDSubset indexing of a wrapper put on top of a wrapper (Model.through / stacked_with); tied "
+    "to KD_REPO by this run's correspondence evaluation (single constructions and, for a quarter of the cases, the "
+    "selection seen through a second wrapper constructed on top, with that constructor's recorded draws)",
+    "ClassFilterWrapper by name: class names are compared as exact strings (what np.isin does on numpy unicode arrays: "
+    "case and blanks matter, the empty string is a name); numpy's stripping of trailing NUL characters is outside the "
+    "generated names (ASCII letters, digits, blanks)",
+    "construction_leaves_labels_unchanged (the harness-checked counterpart of the model's purity): in the model every "
+    "selection function receives the label list BY VALUE, so theorem later_constructor_sees_pristine_labels is true by "
+    "construction; for the REAL constructors this is checked per case, not proved: the content of everything the "
+    "dataset owns (labels, class_names, sampler weights) is compared with a snapshot after EVERY wrapper construction "
+    "and EVERY access through a wrapper (getitem_x, getitem_class, getall_class, get_sampler_weights), on datasets "
+    "whose getall_class hands out a copy (list / tensor), nothing, or THE DATASET'S OWN list / ndarray / tensor; "
+    "constructor arguments are compared with a deep copy; in the multi-step cases (A, then B on top of A, then B next "
+    "to A, then A again - one dataset) B must select what it selects on a pristine copy of the dataset / of what A "
+    "exposes, A must keep showing the same samples and select the same again",
     "percent -> index: binary64 product then int()/np.ceil, evaluated in Coq with PrimFloat (bit-exact under "
     "vm_compute, model instance float_ops); the theorems are stated over abstract percent operations with the contract "
     "Proofs.pct_contract (0. and 1. admissible and extremal, cut 0. = 0, cut 1. = n, 0 <= cut p <= n; proved for exact "
@@ -42,7 +59,7 @@ TRUSTED = [
     "each compared before/after each construction (tripwire), three label providers; seeds include 0, False, "
     "numpy integer 0 and values beyond 2**32 / 2**64; with seed=None the selection must be a function of the "
     "numpy global state (same state -> same selection) and must not touch torch / Python random",
-    "harness/c03.py: dataset with x = sample id, spy around numpy.random.default_rng / numpy.random.shuffle / "
+    "harness/c03.py: dataset with x = sample id and sampler weight 2*id+1, spy around numpy.random.default_rng / numpy.random.shuffle / "
     "numpy.random.permutation, CPU-time alarm (ITIMER_VIRTUAL 3 s, 1 s after two confirmed hangs; 60 s wall-clock "
     "fallback) that classifies a non-returning constructor as RUNAWAY",
 ]
@@ -54,7 +71,11 @@ ASSUMPTIONS = [
     "seeds from OS entropy by numpy's definition: only the structural promise is checked there",
 ]
 RULE = ("class layouts of size 0-64 (thorough -200) over C in 1..6 with absent, single-sample, dominant classes and "
-        "unlabeled (-1) samples; oversampling layouts with class counts (c, k*c + d), d in -1..1, c incl. 41, 47, 55, 61; "
+        "unlabeled (-1) samples; six label providers (no getall_class / copy as list / copy as tensor / the dataset's own "
+        "list / ndarray / tensor); class filters by number (incl. -1 and a non-class) and by NAME: class_names unique or "
+        "drawn from a few names (several classes per name), incl. '' and names differing in case / blanks only; requested "
+        "names known / unknown / variants of known ones / repeated / none / all; a quarter of the cases construct a second "
+        "wrapper on top of and next to the first on the same dataset; oversampling layouts with class counts (c, k*c + d), d in -1..1, c incl. 41, 47, 55, 61; "
         "13 constructor kinds; percents from {0, 1, k/n, k/n +- ulp, k/8, random}; index bounds incl. 0, n, beyond n; "
         "seeds from {None, 0, False, True, numpy 0, 1, 2**32-1, 2**32, 2**63, 2**64+k, random}; "
         "non-trivial = constructor succeeded with a non-empty selection; distinct by (kind, layout, args)")
@@ -69,6 +90,15 @@ KINDS = ["class_filter", "percent", "subset_idx", "subset_range", "subset_percen
 # running the real code
 # ---------------------------------------------------------------------------
 _K = {}
+# label providers: what getall_class hands out.  "own_*": the dataset keeps its labels in a list / ndarray / tensor
+# and getall_class returns THAT OBJECT (as datasets holding a `targets` array do) - a constructor that writes into
+# what it got changes the dataset
+PROVIDERS = ["none", "list", "torch", "own_list", "own_np", "own_torch"]
+OWN_STORAGE = {"own_list": "list", "own_np": "ndarray", "own_torch": "tensor"}
+
+
+def default_names(c):
+    return ["c%d" % i for i in range(c)]
 
 
 def _classes():
@@ -89,36 +119,66 @@ def _classes():
     from kappadata.wrappers.dataset_wrappers.subset_wrapper import SubsetWrapper
 
     class DS(KDDataset):
-        def __init__(self, classes, n_classes):
+        """x = sample id, sampler weight = 2 * id + 1; the labels live in self.store"""
+
+        def __init__(self, classes, n_classes, class_names=None):
             super().__init__()
-            self.c = list(classes)
+            self.store = self.make_store([int(c) for c in classes])
             self.n_classes = n_classes
+            self.names = list(class_names) if class_names is not None else default_names(n_classes)
+            self.weights = torch.arange(len(classes), dtype=torch.float64) * 2 + 1
+
+        @staticmethod
+        def make_store(labels):
+            return labels
+
+        def state(self):
+            """content of everything the dataset owns"""
+            return {"labels": [int(v) for v in self.store], "class_names": list(self.names),
+                    "sampler weights": [float(v) for v in self.weights.tolist()]}
 
         def __len__(self):
-            return len(self.c)
+            return len(self.store)
 
         def getitem_x(self, idx, ctx=None):
-            if not -len(self.c) <= idx < len(self.c):
+            if not -len(self.store) <= idx < len(self.store):
                 raise IndexError(idx)
-            return int(idx) % len(self.c)
+            return int(idx) % len(self.store)
 
         def getitem_class(self, idx, ctx=None):
-            return self.c[idx]
+            return int(self.store[idx])
 
         def getshape_class(self):
             return (self.n_classes,)
 
+        def get_sampler_weights(self):
+            return self.weights
+
         @property
         def class_names(self):
-            return ["c%d" % i for i in range(self.n_classes)]
+            return self.names
 
     class DSList(DS):
         def getall_class(self):
-            return list(self.c)
+            return list(self.store)
 
     class DSTorch(DS):
         def getall_class(self):
-            return torch.tensor(self.c, dtype=torch.long)
+            return torch.tensor(self.store, dtype=torch.long)
+
+    class DSOwnList(DS):
+        def getall_class(self):
+            return self.store
+
+    class DSOwnNumpy(DSOwnList):
+        @staticmethod
+        def make_store(labels):
+            return np.array(labels, dtype=np.int64)
+
+    class DSOwnTorch(DSOwnList):
+        @staticmethod
+        def make_store(labels):
+            return torch.tensor(labels, dtype=torch.long)
 
     class Spy:
         """records what the wrapper's generator returned"""
@@ -139,7 +199,9 @@ def _classes():
         def __getattr__(self, name):
             raise AssertionError("unexpected generator method " + name)
 
-    _K.update(np=np, torch=torch, ds={"none": DS, "list": DSList, "torch": DSTorch}, Spy=Spy,
+    _K.update(np=np, torch=torch, Spy=Spy,
+              ds={"none": DS, "list": DSList, "torch": DSTorch, "own_list": DSOwnList, "own_np": DSOwnNumpy,
+                  "own_torch": DSOwnTorch},
               ClassFilterWrapper=ClassFilterWrapper, ClasswiseSubsetWrapper=ClasswiseSubsetWrapper,
               FewshotWrapper=FewshotWrapper, IntraClassShuffleWrapper=IntraClassShuffleWrapper,
               OversamplingWrapper=OversamplingWrapper, PercentFilterWrapper=PercentFilterWrapper,
@@ -176,48 +238,106 @@ def _seed_arg(case):
     return s
 
 
-def _construct(case, ds):
-    K = _classes()
-    w = case["w"]
+def by_name(call):
+    return call["w"] == "class_filter" and bool(call.get("names"))
+
+
+def requested_names(call):
+    """the names handed to valid_class_names / invalid_class_names (older cases: the names of the classes in `cls`)"""
+    return list(call["req"]) if "req" in call else ["c%d" % c for c in call["cls"]]
+
+
+def _call_args(call):
+    """(wrapper class name, keyword arguments) of one constructor call"""
+    w = call["w"]
     if w == "class_filter":
-        if case.get("names"):      # by name; a name the dataset does not know ("c<C>") selects nothing
-            return K["ClassFilterWrapper"](ds, **{("valid_class_names" if case["valid"] else "invalid_class_names"):
-                                                  ["c%d" % c for c in case["cls"]]})
-        return K["ClassFilterWrapper"](ds, **{("valid_classes" if case["valid"] else "invalid_classes"): list(case["cls"])})
+        if by_name(call):
+            return "ClassFilterWrapper", {("valid_class_names" if call["valid"] else "invalid_class_names"): requested_names(call)}
+        return "ClassFilterWrapper", {("valid_classes" if call["valid"] else "invalid_classes"): list(call["cls"])}
     if w == "percent":
-        return K["PercentFilterWrapper"](ds, from_percent=case["from"], to_percent=case["to"],
-                                         ceil_from_index=case["cf"], ceil_to_index=case["ct"])
+        return "PercentFilterWrapper", dict(from_percent=call["from"], to_percent=call["to"],
+                                            ceil_from_index=call["cf"], ceil_to_index=call["ct"])
     if w == "subset_idx":
-        return K["SubsetWrapper"](ds, indices=list(case["idxs"]))
+        return "SubsetWrapper", dict(indices=list(call["idxs"]))
     if w == "subset_range":
-        return K["SubsetWrapper"](ds, start_index=case["s"], end_index=case["e"])
+        return "SubsetWrapper", dict(start_index=call["s"], end_index=call["e"])
     if w == "subset_percent":
-        return K["SubsetWrapper"](ds, start_percent=case["s"], end_percent=case["e"])
+        return "SubsetWrapper", dict(start_percent=call["s"], end_percent=call["e"])
     if w == "shuffle":
-        return K["ShuffleWrapper"](ds, seed=_seed_arg(case))
+        return "ShuffleWrapper", dict(seed=_seed_arg(call))
     if w == "repeat":
-        return K["RepeatWrapper"](ds, repetitions=case["reps"], min_size=case["min_size"])
+        return "RepeatWrapper", dict(repetitions=call["reps"], min_size=call["min_size"])
     if w == "oversample":
-        return K["OversamplingWrapper"](ds, mode=case["mode"])
+        return "OversamplingWrapper", dict(mode=call["mode"])
     if w == "sort":
-        return K["SortByClassWrapper"](ds)
+        return "SortByClassWrapper", {}
     if w == "intra":
-        return K["IntraClassShuffleWrapper"](ds, seed=_seed_arg(case))
+        return "IntraClassShuffleWrapper", dict(seed=_seed_arg(call))
     if w == "fewshot":
-        return K["FewshotWrapper"](ds, num_shots=case["shots"], seed=_seed_arg(case))
+        return "FewshotWrapper", dict(num_shots=call["shots"], seed=_seed_arg(call))
     if w == "cw_range":
-        return K["ClasswiseSubsetWrapper"](ds, start_index=case["s"], end_index=case["e"],
-                                           check_enough_samples=case["check"])
+        return "ClasswiseSubsetWrapper", dict(start_index=call["s"], end_index=call["e"],
+                                              check_enough_samples=call["check"])
     if w == "cw_percent":
-        return K["ClasswiseSubsetWrapper"](ds, start_percent=case["s"], end_percent=case["e"])
+        return "ClasswiseSubsetWrapper", dict(start_percent=call["s"], end_percent=call["e"])
     raise KeyError(w)
 
 
-def _select(case, trace=None, over=None):
-    """(selection or None, error name); over = constructor call of a second wrapper put on top of the first"""
+# everything a constructor / an access changed that it must not change (clause construction_leaves_labels_unchanged),
+# collected over all sessions of one run_impl
+_EVENTS = []
+
+
+class _Session:
+    """one dataset and the wrappers constructed on it, one after the other.  The content of everything the dataset owns
+    (labels, class names, sampler weights) is compared with a snapshot after EVERY construction and EVERY access."""
+
+    def __init__(self, case):
+        K = _classes()
+        self.prov = case.get("prov", "list")
+        self.ds = K["ds"][self.prov](case["classes"], case["C"], case.get("class_names"))
+        self.snap = self.ds.state()
+
+    def verify(self, where):
+        now = self.ds.state()
+        for k in now:
+            if now[k] != self.snap[k]:
+                _EVENTS.append({"after": where, "what": k, "before": self.snap[k], "now": now[k], "provider": self.prov})
+        self.snap = now
+
+    def build(self, call, base=None):
+        K = _classes()
+        name, kwargs = _call_args(call)
+        kept = copy.deepcopy(kwargs)
+        where = "constructing " + name + ("" if base is None else " on top of " + type(base).__name__)
+        try:
+            return K[name](self.ds if base is None else base, **kwargs)
+        finally:
+            if kept != kwargs:
+                _EVENTS.append({"after": where, "what": "constructor arguments", "before": repr(kept), "now": repr(kwargs),
+                                "provider": self.prov})
+            self.verify(where)
+
+    def read(self, w, what="x"):
+        """what the wrapper shows at every position"""
+        try:
+            if what == "x":
+                return [int(w.getitem_x(i)) for i in range(len(w))]
+            if what == "class":
+                return [int(w.getitem_class(i)) for i in range(len(w))]
+            if what == "all_class":
+                return [int(v) for v in w.getall_class()]
+            return [float(v) for v in w.get_sampler_weights().tolist()]
+        finally:
+            self.verify("reading " + {"x": "the samples", "class": "the labels (getitem_class)",
+                                      "all_class": "the labels (getall_class)",
+                                      "weights": "the sampler weights"}[what] + " through " + type(w).__name__)
+
+
+def _guarded(fn, trace=None):
+    """(fn(), None) or (None, error name); generator spy and CPU-time alarm around it"""
     K = _classes()
     np = K["np"]
-    ds = K["ds"][case.get("prov", "list")](case["classes"], case["C"])
     real = np.random.default_rng, np.random.shuffle, np.random.permutation
     if trace is not None:
         np.random.default_rng = lambda *a, **kw: K["Spy"](real[0](*a, **kw), trace)
@@ -229,11 +349,7 @@ def _select(case, trace=None, over=None):
     signal.setitimer(signal.ITIMER_VIRTUAL, _alarm_seconds())
     signal.setitimer(signal.ITIMER_REAL, WALL_FALLBACK_S)
     try:
-        w = _construct(case, ds)
-        if over is not None:
-            w = _construct(over, w)
-        out = [int(w.getitem_x(i)) for i in range(len(w))]
-        return out, None
+        return fn(), None
     except _Runaway:
         _RUNAWAYS[0] += 1
         return None, "RUNAWAY"
@@ -245,6 +361,64 @@ def _select(case, trace=None, over=None):
         signal.signal(signal.SIGVTALRM, old_v)
         signal.signal(signal.SIGALRM, old_r)
         np.random.default_rng, np.random.shuffle, np.random.permutation = real
+
+
+def _select(case, trace=None, over=None, extra=None):
+    """(selection or None, error name) of a fresh dataset; over = constructor call of a second wrapper put on top of
+    the first; extra = dict that receives what else the wrapper shows (labels, sampler weights, the selection again)"""
+    s = _Session(case)
+
+    def go():
+        w = s.build(case)
+        if over is not None:
+            w = s.build(over, w)
+        out = s.read(w)
+        if extra is not None:
+            try:
+                extra["exposed"] = s.read(w, "class")
+                if s.prov != "none":
+                    extra["exposed_all"] = s.read(w, "all_class")
+                extra["weights"] = s.read(w, "weights")
+                extra["reread"] = s.read(w)
+            except EXPECTED_ERRORS as e:
+                extra["access_err"] = type(e).__name__ + ": " + str(e)[:200]
+        return out
+
+    return _guarded(go, trace)
+
+
+def _multi(case):
+    """several constructions on ONE dataset: A, then B on top of A, then B next to A, then A once more"""
+    over = case["over"]
+    s = _Session(case)
+    trace = []
+    res = {}
+
+    def step(key, fn):
+        try:
+            res[key] = fn()
+        except EXPECTED_ERRORS as e:
+            res[key] = None
+            res[key + "_err"] = type(e).__name__
+
+    def go():
+        a = s.build(case)
+        res["a"] = s.read(a)
+        m0 = len(trace)
+        top = []
+        step("composed", lambda: s.read(top.append(s.build(over, a)) or top[0]))
+        res["over_draws"] = trace[m0:]
+        if res["composed"] is not None:
+            # labels and sampler weights seen through both wrappers
+            step("composed_class", lambda: s.read(top[0], "class"))
+            step("composed_weights", lambda: s.read(top[0], "weights"))
+        step("a_after", lambda: s.read(a))
+        step("beside", lambda: s.read(s.build(over)))
+        step("a_again", lambda: s.read(s.build(case)))
+        return True
+
+    res["err"] = _guarded(go, trace)[1]
+    return res
 
 
 SEEDED = ("shuffle", "intra", "fewshot")
@@ -259,14 +433,14 @@ def _global_states():
             "random": pyrandom.getstate()}
 
 
-def _select_under(case, np_seed, torch_seed, py_seed, trace=None):
+def _select_under(case, np_seed, torch_seed, py_seed, trace=None, extra=None):
     """one construction under the given states of the global generators; which of them it consumed"""
     K = _classes()
     K["np"].random.seed(np_seed)
     K["torch"].manual_seed(torch_seed)
     pyrandom.seed(py_seed)
     g0 = _global_states()
-    out, err = _select(case, trace)
+    out, err = _select(case, trace, extra=extra)
     g1 = _global_states()
     return out, err, sorted(k for k in g0 if g0[k] != g1[k])
 
@@ -275,16 +449,29 @@ def run_impl(case):
     import warnings
     warnings.filterwarnings("ignore")
     py_state = pyrandom.getstate()
+    del _EVENTS[:]
     try:
-        return _run_impl(case)
+        obs = _run_impl(case)
+        obs["impure"] = [dict(e) for e in _EVENTS[:3]]
+        return obs
     finally:
         pyrandom.setstate(py_state)
 
 
+def named_classes(case, call=None):
+    """the numbers of ALL classes of the dataset that carry a requested name"""
+    call = call or case
+    names = case.get("class_names") or default_names(case["C"])
+    req = requested_names(call)
+    return [c for c in range(case["C"]) if names[c] in req]
+
+
 def _run_impl(case):
     trace = []
-    out, err, touched = _select_under(case, 11, 11, 11, trace)
+    extra = {}
+    out, err, touched = _select_under(case, 11, 11, 11, trace, extra)
     obs = {"out": out, "err": err, "draws": trace, "global_rng_touched": touched}
+    obs.update(extra)
     if err == "RUNAWAY":
         return obs
     # same arguments, other states of all three global generators: the selection must not change
@@ -295,6 +482,9 @@ def _run_impl(case):
     if case["w"] in SEEDED and case.get("seed") is None and "seed" in case:
         # seed=None = "use the global numpy generator": same global state -> same selection
         obs["same_state"] = _select_under(case, 11, 11, 11)[0]
+    if by_name(case):
+        # filtering by name = filtering by number with all classes that carry a requested name
+        obs["by_number"], obs["by_number_err"] = _select(dict(case, names=False, cls=named_classes(case)))
     # complementary ranges
     n = len(case["classes"])
     if out is not None and case["w"] in ("percent", "subset_range", "subset_percent"):
@@ -308,14 +498,25 @@ def _run_impl(case):
             hi = dict(case, s=hi_start, e=None) if case["e"] is not None else None
         obs["before"] = _select(lo)[0] if lo else []
         obs["after"] = _select(hi)[0] if hi else []
-    # a second wrapper on top (the usual way these wrappers are used): it must select from what the first exposes
-    # exactly what it selects from a plain dataset with the same labels
+    # more wrappers on the same dataset (the usual way these wrappers are used): a second wrapper B on top of the
+    # first (A) must select from what A exposes exactly what it selects from a plain dataset with the same labels;
+    # B constructed next to A on the same dataset must select what it selects on a pristine copy of the dataset;
+    # A must keep exposing the same samples, and A constructed again must select the same again
     deterministic = not (case["w"] in SEEDED and case.get("seed") is None)
     if out is not None and case.get("over") and deterministic and (out or case["over"]["w"] != "oversample"):
         over = case["over"]
-        obs["composed"], obs["composed_err"] = _select(case, over=over)
-        alone = dict(over, classes=[case["classes"][i] for i in out], C=case["C"], prov=case.get("prov", "list"))
+        m = _multi(case)
+        obs["multi_err"] = m["err"]
+        obs["composed"], obs["composed_err"] = m.get("composed"), m.get("composed_err")
+        obs["over_draws"] = m.get("over_draws", [])
+        for k in ("a", "a_after", "beside", "beside_err", "a_again", "composed_class", "composed_class_err",
+                  "composed_weights", "composed_weights_err"):
+            obs["multi_" + k] = m.get(k)
+        common_keys = dict(C=case["C"], prov=case.get("prov", "list"), class_names=case.get("class_names"))
+        alone = dict(over, classes=[case["classes"][i] for i in out], **common_keys)
         obs["outer_alone"], obs["outer_alone_err"] = _select(alone)
+        pristine = dict(over, classes=list(case["classes"]), **common_keys)
+        obs["beside_alone"], obs["beside_alone_err"] = _select(pristine)
     return obs
 
 
@@ -355,14 +556,53 @@ def oracle(case, obs):
                     f"generator(s) {obs['global_rng_touched']}")
     if out is not None and any(not 0 <= i < n for i in out):
         return f"{w}: selection {out} leaves the dataset (n={n})"
+    # constructors and accesses are pure (construction_leaves_labels_unchanged): nothing the dataset owns, no wrapper
+    # below and no argument is changed by constructing a wrapper or by reading through it
+    for e in obs.get("impure") or []:
+        own = OWN_STORAGE.get(e.get("provider"))
+        whose = "its" if e["what"] == "constructor arguments" else "the dataset's"
+        return (f"{w}: {e['after']} changed {whose} {e['what']} from {e['before']} to {e['now']}"
+                + (f" (getall_class hands out the dataset's own {own})" if own and e["what"] == "labels" else ""))
+    if out is not None:
+        if obs.get("access_err"):
+            return f"{w}: reading labels / sampler weights through the wrapper raised {obs['access_err']}"
+        for key, what, expected in (("exposed", "labels (getitem_class)", [cl[i] for i in out]),
+                                    ("exposed_all", "labels (getall_class)", [cl[i] for i in out]),
+                                    ("weights", "sampler weights", [2.0 * i + 1 for i in out]),
+                                    ("reread", "samples when read a second time", out)):
+            if key in obs and obs[key] != expected:
+                return (f"{w}: the wrapper selects the samples {out} but shows the {what} {obs[key]}; those of the "
+                        f"selected samples are {expected}")
+    if obs.get("multi_err"):
+        return (f"{case['over']['w']} on / next to {w}: constructing several wrappers on one dataset "
+                + ("does not terminate" if obs["multi_err"] == "RUNAWAY" else f"raised {obs['multi_err']}")
+                + f" although {w} alone selects {out}")
     if "composed" in obs:
+        ow = case["over"]["w"]
+        if obs["multi_a"] != out or obs["multi_a_again"] != out:
+            return (f"{w}: constructed again on the same dataset (before / after a {ow} wrapper was constructed on it) it "
+                    f"selects {obs['multi_a']} / {obs['multi_a_again']}, on a fresh dataset {out}")
+        if obs["multi_a_after"] != out:
+            return (f"{ow} over {w}: after the {ow} wrapper was constructed on top of it the {w} wrapper shows the samples "
+                    f"{obs['multi_a_after']}, before: {out}")
         alone = obs["outer_alone"]
         expected = None if alone is None else [out[j] for j in alone]
         if obs["composed"] != expected:
-            ow = case["over"]["w"]
             return (f"{ow} over {w}: selected {obs['composed'] if obs['composed'] is not None else obs['composed_err']}; "
                     f"over a plain dataset with the labels the {w} wrapper exposes it selects positions "
                     f"{alone if alone is not None else obs['outer_alone_err']}, i.e. samples {expected}")
+        if obs["composed"] is not None:
+            for key, what, exp in (("composed_class", "labels", [cl[i] for i in obs["composed"]]),
+                                   ("composed_weights", "sampler weights", [2.0 * i + 1 for i in obs["composed"]])):
+                if obs.get("multi_" + key) != exp:
+                    got = obs.get("multi_" + key)
+                    return (f"{ow} over {w}: the stack selects the samples {obs['composed']} but shows the {what} "
+                            f"{got if got is not None else 'raised ' + str(obs.get('multi_' + key + '_err'))}; those of the "
+                            f"selected samples are {exp}")
+        if obs["multi_beside"] != obs["beside_alone"]:
+            return (f"{ow} next to {w}: constructed on a dataset on which a {w} wrapper had been constructed it selects "
+                    f"{obs['multi_beside'] if obs['multi_beside'] is not None else obs['multi_beside_err']}, on a pristine copy "
+                    f"of the dataset {obs['beside_alone'] if obs['beside_alone'] is not None else obs['beside_alone_err']}")
     cnt = collections.Counter(cl)
     occ = collections.Counter(out or [])
 
@@ -374,7 +614,20 @@ def oracle(case, obs):
         return None
 
     if w == "class_filter":
-        keep = set(c for c in case["cls"] if not case.get("names") or c < case["C"])
+        if by_name(case):
+            # a sample is selected iff the NAME of its class is among the requested names
+            names = case.get("class_names") or default_names(case["C"])
+            req = requested_names(case)
+            wanted = [0 <= cl[i] < case["C"] and names[cl[i]] in req for i in range(n)]
+            r = need([i for i in range(n) if wanted[i] == case["valid"]],
+                     f"the samples whose class name is {'' if case['valid'] else 'not '}in {req} (class names {names}) in order")
+            if r is None and obs.get("by_number") != out:
+                r = (f"class_filter: {'valid' if case['valid'] else 'invalid'}_class_names={req} selects {out}, "
+                     f"{'valid' if case['valid'] else 'invalid'}_classes={named_classes(case)} (all classes carrying these "
+                     f"names, class names {names}) selects "
+                     f"{obs.get('by_number') if obs.get('by_number') is not None else obs.get('by_number_err')}")
+            return r
+        keep = set(case["cls"])
         return need([i for i in range(n) if (cl[i] in keep) == case["valid"]], "the samples of the allowed classes in order")
     if w in ("percent", "subset_range", "subset_percent"):
         if w == "percent":
@@ -519,8 +772,10 @@ def coq_wcase(case, obs):
     w = case["w"]
     d = obs["draws"]
     if w == "class_filter":
-        # by name: the names are mapped to class numbers through dataset.class_names first (unknown names drop out)
-        return C("WClassFilter", bool(case["valid"]), [c for c in case["cls"] if not case.get("names") or c < case["C"]])
+        if by_name(case):
+            names = case.get("class_names") or default_names(case["C"])
+            return C("WClassFilterNames", bool(case["valid"]), [Str(x) for x in names], [Str(x) for x in requested_names(case)])
+        return C("WClassFilter", bool(case["valid"]), list(case["cls"]))
     if w == "percent":
         return C("WPercent", _f(case["from"]), _f(case["to"]), bool(case["cf"]), bool(case["ct"]))
     if w == "subset_idx":
@@ -554,7 +809,12 @@ def coq_case(case, obs):
     compl = []
     if obs.get("before") is not None and obs.get("after") is not None and "before" in obs:
         compl = [obs["before"], obs["after"]]
-    return coq((list(case["classes"]), case["C"], coq_wcase(case, obs), Opt(obs["out"]), compl))
+    stack = Raw("None")
+    if "composed" in obs and not obs.get("multi_err"):
+        # the second wrapper, with the draws recorded while it was constructed on top of the first
+        over = dict(case["over"], C=case["C"], class_names=case.get("class_names"))
+        stack = Opt((coq_wcase(over, {"draws": obs["over_draws"]}), Opt(obs["composed"])))
+    return coq((list(case["classes"]), case["C"], coq_wcase(case, obs), Opt(obs["out"]), compl, stack))
 
 
 # ---------------------------------------------------------------------------
@@ -663,7 +923,8 @@ def gen_over(rng, c):
             over["shots"] = rng.choice([0, 1, 2, 3])
     elif w == "class_filter":
         over["valid"] = rng.random() < 0.5
-        over["cls"] = [rng.randrange(c + 1) for _ in range(rng.choice([0, 1, 2]))]
+        over["cls"] = [rng.randrange(-1, c + 1) for _ in range(rng.choice([0, 1, 2]))]
+        over["names"] = rng.random() < 0.35         # the requested names are drawn in gen_case (needs the class names)
     elif w == "repeat":
         over["reps"], over["min_size"] = rng.choice([1, 2, 3]), None
     elif w in ("subset_percent", "cw_percent", "percent"):
@@ -677,10 +938,63 @@ def gen_over(rng, c):
     return over
 
 
+NAME_POOL = ["crane", "maillot", "tench", "hen", "Crane", "CRANE", "crane ", " crane", "cr ane", "", " ", "c0", "c1"]
+
+
+def gen_class_names(rng, c):
+    """dataset.class_names: unique, or drawn from a few names (several classes carry the same name, as "crane" and
+    "maillot" do in ImageNet), incl. the empty name and names differing in case / white space only"""
+    r = rng.random()
+    if r < 0.15:
+        return None                                   # the default: c0, c1, ...
+    if r < 0.25:
+        return [rng.choice(NAME_POOL)] * c
+    if r < 0.40:
+        return rng.sample(NAME_POOL, c)
+    if r < 0.60:                                      # one name in several spellings
+        base = rng.choice(["crane", "maillot", "hen", "c0"])
+        family = [base, base.capitalize(), base.upper(), base + " ", " " + base, base[:2] + " " + base[2:]]
+        return [rng.choice(family) for _ in range(c)]
+    pool = rng.sample(NAME_POOL, rng.randint(1, max(1, min(len(NAME_POOL), c))))
+    return [rng.choice(pool) for _ in range(c)]
+
+
+def gen_requested(rng, names):
+    """valid_class_names / invalid_class_names: names of the dataset, names no class carries, variants of present names
+    (other case, added / removed blanks), repeated names, no name, all names"""
+    r = rng.random()
+    if r < 0.08:
+        return []
+    if r < 0.20:
+        req = list(names)
+    else:
+        req = []
+        for _ in range(rng.choice([1, 1, 2, 2, 3, 4])):
+            q = rng.random()
+            nm = rng.choice(names)
+            if q < 0.70:
+                req.append(nm)
+            elif q < 0.85:
+                req.append(rng.choice([nm.upper(), nm.capitalize(), nm + " ", " " + nm, nm.strip(), nm.lower()]))
+            else:
+                req.append(rng.choice(NAME_POOL + ["zebra", "c%d" % len(names)]))
+    if req and rng.random() < 0.3:
+        req.append(rng.choice(req))
+    rng.shuffle(req)
+    return req
+
+
 def gen_case(rng, big=False, kind=None):
     case = _gen_case(rng, big, kind)
     if rng.random() < 0.25:
         case["over"] = gen_over(rng, case["C"])
+    calls = [c for c in (case, case.get("over")) if c and by_name(c)]
+    if calls or rng.random() < 0.1:
+        names = gen_class_names(rng, case["C"])
+        if names is not None:
+            case["class_names"] = names
+        for call in calls:
+            call["req"] = gen_requested(rng, names or default_names(case["C"]))
     return case
 
 
@@ -691,7 +1005,7 @@ def _gen_case(rng, big=False, kind=None):
     else:
         cl, c = gen_layout(rng, big)
     n = len(cl)
-    case = {"w": w, "classes": cl, "C": c, "prov": rng.choice(["list", "list", "torch", "none"])}
+    case = {"w": w, "classes": cl, "C": c, "prov": rng.choice(PROVIDERS)}
     if w in CLASS_BASED and n > 0 and rng.random() < 0.15:
         # unlabeled samples: one, a few, or (rarely) all of them
         m = rng.choice([1, 1, 2, 3, max(1, n // 3), n if rng.random() < 0.3 else 1])
@@ -702,8 +1016,8 @@ def _gen_case(rng, big=False, kind=None):
         cl[rng.randrange(n)] = c
     if w == "class_filter":
         case["valid"] = rng.random() < 0.5
-        case["cls"] = [rng.randrange(c + 1) for _ in range(rng.choice([0, 1, 1, 2, 3]))]
-        case["names"] = rng.random() < 0.3
+        case["cls"] = [rng.randrange(-1, c + 1) for _ in range(rng.choice([0, 1, 1, 2, 3]))]
+        case["names"] = rng.random() < 0.55
     elif w == "percent":
         case.update({"from": gen_percent(rng, n), "to": gen_percent(rng, n), "cf": rng.random() < 0.4, "ct": rng.random() < 0.4})
         if rng.random() < 0.7 and case["from"] is not None and case["to"] is not None and case["from"] > case["to"]:
@@ -752,11 +1066,15 @@ def _gen_case(rng, big=False, kind=None):
     return case
 
 
+# class filters come in four flavours (valid / invalid, by number / by name): two slots of the round robin
+GEN_KINDS = KINDS + ["class_filter"]
+
+
 def gen_cases(rng, tier):
     n = 1300 if tier == "quick" else 9000
-    out = [gen_case(rng, kind=KINDS[i % len(KINDS)]) for i in range(n)]
+    out = [gen_case(rng, kind=GEN_KINDS[i % len(GEN_KINDS)]) for i in range(n)]
     if tier == "thorough":
-        out += [gen_case(rng, big=True, kind=KINDS[i % len(KINDS)]) for i in range(2600)]
+        out += [gen_case(rng, big=True, kind=GEN_KINDS[i % len(GEN_KINDS)]) for i in range(2600)]
     return out
 
 
@@ -773,6 +1091,18 @@ def features(case, obs):
                   else "17-64" if len(cl) <= 64 else ">64")
     if case.get("over"):
         yield "over=" + case["over"]["w"] + ("" if obs.get("composed") is not None else "(raised)" if "composed" in obs else "(n/a)")
+    yield "provider=" + case.get("prov", "list")
+    if obs.get("impure"):
+        yield "impure=" + obs["impure"][0]["what"]
+    for call, tag in ((case, "names"), (case.get("over"), "over_names")):
+        if call and by_name(call):
+            names = case.get("class_names") or default_names(case["C"])
+            req = requested_names(call)
+            dup = {x for x in names if names.count(x) > 1}
+            yield tag + "=" + ("unique" if not dup else "duplicate-requested" if dup & set(req) else "duplicate-not-requested")
+            yield tag + "_requested=" + ("none" if not req else "all" if set(names) <= set(req) else
+                                         "+".join(sorted({"known" if x in names else "unknown" for x in req}
+                                                         | ({"repeated"} if len(set(req)) < len(req) else set()))))
     if case["w"] in SEEDED:
         sd = case["seed"]
         yield "seed=" + ("None" if sd is None else ("numpy-" if case.get("seed_np") else "bool-" if isinstance(sd, bool) else "")
@@ -818,21 +1148,30 @@ def shrink(case):
             c2["idxs"] = [j for j in case["idxs"] if -(n - 1) <= j < n - 1]
         yield c2
     if case["C"] > 1 and all(x < case["C"] - 1 for x in cl):
-        yield dict(case, C=case["C"] - 1)
+        c2 = dict(case, C=case["C"] - 1)
+        if case.get("class_names"):
+            c2["class_names"] = case["class_names"][:-1]
+        yield c2
+    if case.get("class_names"):
+        yield {k: v for k, v in case.items() if k != "class_names"}
     for i, x in enumerate(cl):
         if x > 0:
             yield dict(case, classes=cl[:i] + [x - 1] + cl[i + 1:])
-    for k in ("idxs", "cls"):
+    for k in ("idxs", "cls", "req"):
         if k in case:
             for i in range(len(case[k])):
                 yield dict(case, **{k: case[k][:i] + case[k][i + 1:]})
+    if case.get("over") and case["over"].get("req"):
+        req = case["over"]["req"]
+        for i in range(len(req)):
+            yield dict(case, over=dict(case["over"], req=req[:i] + req[i + 1:]))
     for k in ("s", "e", "reps", "min_size", "shots"):
         if isinstance(case.get(k), int) and case[k] > 0:
             yield dict(case, **{k: case[k] - 1})
     for k in ("from", "to", "s", "e"):
         if isinstance(case.get(k), float) and case[k] not in (0.0, 1.0, 0.5):
             yield dict(case, **{k: 0.5})
-    if case.get("prov") != "list":
+    if case.get("prov", "list") != "list":
         yield dict(case, prov="list")
     if "over" in case:
         yield {k: v for k, v in case.items() if k != "over"}
